@@ -17,7 +17,9 @@ vars == <<st, hist>>
 
 Init == st \in {SInit(o) : o \in AllOpts} /\ hist = <<>>
 
-Take(e) == LET n == SStep(st, e) IN n.pc # "REJECT" /\ st' = n /\ hist' = Append(hist, e)
+Take(e) == LET n == SStep(st, e)
+           IN n.pc # "REJECT" /\ st' = n
+              /\ hist' = Append(hist, [op |-> e.op, role |-> e.role, res |-> e.res, eff |-> e.eff, post |-> n.fs])
 
 \* events of one kind
 Ev(op, roles, ress) == {e \in Events : e.op = op /\ e.role \in roles /\ e.res \in ress}
